@@ -69,3 +69,48 @@ contract(SS + 'SnepServer.process_put_request', 'C06', dict(self=Any(), ndef_mes
          name='C06/process_put_request', assumed=True, note='application upcall', raises={}, returns=Int(0, 255))
 contract('ndef:message_decoder', 'C06', dict(octets=Any()), name='C06/ndef.message_decoder', assumed=True,
          note='ndeflib: decodes the octets or raises ndef.DecodeError', raises={}, returns=Fixed([]))
+
+# ---------------------------------------------------------------- handover server
+# serve(): the request handed to the application is everything received since the previous request, and it is
+# handed over only once the completeness probe has accepted exactly those octets.  ndeflib is outside the
+# verified code; its assumed contract: message_decoder(octets, 'strict', ...) raises ndef.DecodeError unless the
+# octets are one complete NDEF message (MB..ME); with 'relax' any prefix that ends on a record boundary decodes
+# without error - therefore the probe must decode strictly (interface precondition at the call site).
+HS = 'nfc.handover.server:'
+contract('ndef:message_decoder', 'C06', dict(octets=Any(), errors=Any(), known_types=Any()),
+         name='C06/ndef.completeness-probe', assumed=True,
+         note='ndeflib: strict decoding fails unless the octets are one complete message',
+         requires=[('strict', 'errors == "strict"')],
+         raises={'ndef:DecodeError': []}, returns=Fixed([]))
+contract(HS + 'HandoverServer._process_request_data', 'C06', dict(self=Any(), octets=Any()),
+         name='C06/handover.process_request_data', assumed=True,
+         note='application upcall (decodes relaxed, answers with a select message); ghost: the octets up to the '
+              'current read position are consumed',
+         requires=[('probed', 'was_called("C06/ndef.completeness-probe") and '
+                              'call_arg("C06/ndef.completeness-probe", "octets") is octets'),
+                   ('whole-once', 'bytes(octets) == self._g_sock.inp[self._g_sock.mark:self._g_sock.pos]')],
+         modifies={'self._g_sock.mark': Int(0, None)}, ensures=['self._g_sock.mark == self._g_sock.pos'],
+         raises={}, returns=Bytes(0, None))
+HQ = 'nfc.handover.server.HandoverServer.serve'
+PSOCK = lambda: Obj('models.snep_models:PolledSocket', _partial=False, stream=Const(b''), nsent=0, maxlen=0,   # noqa
+                    pos=0, first_reply=None, inp=Bytes(0, None), mark=0)
+contract(HS + 'HandoverServer.serve', 'C06',
+         dict(self=Obj(HS + 'HandoverServer', _g_sock=Ref('socket')), socket=PSOCK()),
+         name='C06/HandoverServer.serve',
+         use=['C06/ndef.completeness-probe', 'C06/handover.process_request_data'],
+         raises={},
+         loops={(HQ, 'While', 0): LoopSpec(
+                    invariant=['socket.mark == socket.pos or socket.pos >= len(socket.inp)',
+                               'socket.pos <= len(socket.inp) and socket.mark <= socket.pos'],
+                    decreases='len(socket.inp) - socket.pos',
+                    havoc={'socket.pos': Int(0, None), 'socket.mark': Int(0, None), 'socket.stream': Bytes(),
+                           'socket.nsent': Int(0, None), 'socket.maxlen': Int(0, None)}),
+                (HQ, 'While', 1): LoopSpec(
+                    invariant=['bytes(request) == socket.inp[socket.mark:socket.pos]',
+                               'socket.pos <= len(socket.inp) and socket.mark <= socket.pos'],
+                    decreases='len(socket.inp) - socket.pos',
+                    havoc={'socket.pos': Int(0, None), 'request': 'bytearray(socket.inp[socket.mark:socket.pos])',
+                           'socket.stream': Bytes(), 'socket.nsent': Int(0, None), 'socket.maxlen': Int(0, None)}),
+                (HQ, 'For', 0): LoopSpec(
+                    invariant=['True'], havoc={'socket.stream': Bytes(), 'socket.nsent': Int(0, None),
+                                                'socket.maxlen': Int(0, None)})})
